@@ -1,4 +1,5 @@
 import MimeModel.Lemmas.Sig
+import MimeModel.Lemmas.JsonFuel
 import MimeModel.Lemmas.Tree
 import MimeModel.Model.Detect
 import MimeModel.Gen.Tree
@@ -184,5 +185,13 @@ theorem detect_total (ext : Ext) (T : Tree Info) (x : Bytes) (lim : Nat) :
    around uint32 is evaluated, not skipped -/
 example : zipContains ([0x50, 0x4B, 3, 4] ++ List.replicate 14 0 ++ [0xCF, 0xFF, 0xFF, 0xFF] ++ List.replicate 40 0x41)
     [0x78, 0x6C, 0x2F] false = some false := by decide
+
+/-- the fuel of the JSON scanner model is a modelling device only: any two fuels above `2·len + 1`
+    give the same run, so the unbounded recursion of the Go code terminates with the result the
+    model computes with the fuel `parse` supplies -/
+theorem json_fuel_irrelevant (qs : List Gen.Json.Query) (cap lvl : Nat) (b : Bytes) (s : Json.PState) (f g : Nat)
+    (hf : 2 * b.length + 1 ≤ f) (hg : 2 * b.length + 1 ≤ g) :
+    Json.consumeAny qs cap f lvl b s = Json.consumeAny qs cap g lvl b s :=
+  JsonPrefix.consumeAny_fuel qs cap lvl b s f g hf hg
 
 end Mime.C01
